@@ -196,6 +196,8 @@ def run_case(case: dict) -> Result:
         if a.structural and a.P is not None and isinstance(a.P, base.RawTreeModel):
             neighbours = len([c for c in O.raw_children(a.P) if not isinstance(c, O.ZERO_WIDTH)]) >= 2
         tight0 = tight_pairs(root)
+        toks0 = [t for t in O.store_tokens(root.token_store) if t.raw_text != '']
+        tight_comma0 = {id(x) for x, y in zip(toks0, toks0[1:]) if type(x).__name__ == 'Comma' and not isinstance(y, O.Whitespace)}
         try:
             a.run()
         except common.REFUSAL:
@@ -212,11 +214,19 @@ def run_case(case: dict) -> Result:
         if ambiguous_custom(root):
             classes.add('excluded-custom-sign-ambiguity')
             break
-        if not pinned and (tight_number_comma_number(root) or ignored_before_blanks(root)):
+        toks1 = [t for t in O.store_tokens(root.token_store) if t.raw_text != '']
+        old_tight_comma = any(type(b_).__name__ == 'Comma' and id(b_) in tight_comma0 and type(a_).__name__ == 'Number' and not isinstance(c_, O.Whitespace)
+                              for a_, b_, c_ in zip(toks1, toks1[1:], toks1[2:]))
+        if not pinned and ((tight_number_comma_number(root) and old_tight_comma) or ignored_before_blanks(root)):
+            # (the tight comma must have been in the text before the edit: a comma the edit itself wrote without a blank is not the open finding)
             classes.add('excluded-lexical-adjacency')
             res.excluded_known += 1
             break
         bad = compare(root, str(op), a.key())
+        if bad and bad[0] == 'number-merges-across-tight-comma' and not pinned:
+            # the open finding is about a comma that was written tight in the text beforehand; a comma the edit itself wrote without a blank is not it
+            if not old_tight_comma:
+                bad = (f'digest:{a.key()}:edit-wrote-tight-comma', bad[1])
         if bad and bad[0] == 'reparse-rejected:unindented-comment-before-body-line' and not pinned:
             # the open finding needs such a comment in the text beforehand (those documents are excluded above); here the edit itself wrote an
             # unindented comment line into a body - not the known finding (round 8, seed C09-h)
